@@ -130,6 +130,34 @@ add("C18", "exploration",
     "mixed int/float stacks on one step are not judged (documented "
     "interpretation)", "DESIGN.md 3/C18")
 
+add("C07", "exploration",
+    "runtime reference-model monitor: exact ancilla correlation tables (R4) "
+    "+ independent time-specification interpreter (R8); exhaustive "
+    "enumeration of the specification space",
+    "Every int, slice, list permutation, float and float interval (both "
+    "directions) over a grid of N=4 (thorough also N=5) steps is passed as "
+    "times_a and as times_b, ordered and anti-ordered, with start_time not a "
+    "multiple of dt; returned time axes, values and the exact NaN pattern "
+    "are compared with the exact table; plus 2..4-operator correlations with "
+    "all left/right patterns, the caller-dt clause, the anti=conj(ordered) "
+    "identity on PT-TEMPO tensors and bath observables vs the "
+    "displaced-oscillator closed form.",
+    "specifications that denote nothing / lie outside the grid are not "
+    "judged; dense model independent", "DESIGN.md 3/C07")
+add("C08", "exploration",
+    "finite-difference oracle through an independent forward path (dense R4 "
+    "model / piecewise-constant compute_dynamics)",
+    "The gradient returned by state_gradient is compared entry by entry "
+    "(every half step, every parameter) with central finite differences of "
+    "the objective computed by an independent forward model, for 1..3 "
+    "non-commuting ancilla environments in two representations, PT-TEMPO "
+    "sigma_z/sigma_x baths in both orders, parameter-dependent dissipators, "
+    "user-supplied and numerically differentiated propagator derivatives, "
+    "array and callable targets, and a system object reused with another "
+    "time step; reported dynamics must equal the forward path.",
+    "finite differences with two step sizes (self-check 1e-7); bound 2e-6 "
+    "relative", "DESIGN.md 3/C08")
+
 NOT_APPLICABLE = []
 
 
